@@ -10,6 +10,7 @@ for s in $(seq "$1" "$2"); do
   for id in C05 C16 C18; do
     out=$(VERIF_SEED=$s ./check $id --tier quick 2>&1); rc=$?
     echo "seed=$s $id exit=$rc $(echo "$out" | grep -c '^VIOLATION') violation-lines"
-    [ $rc -ne 0 ] && echo "$out" | grep -E '^(violation|VIOLATION|harness)' | cut -c1-400
+    if [ $rc -ne 0 ]; then echo "$out" | grep -E "^(violation|VIOLATION|harness)" | cut -c1-400; fi
   done
 done
+exit 0
